@@ -332,6 +332,19 @@ def oversize_tokens():
         yield {"stream": "GET / HTTP/1.1\r\nX: a" + " " * n + "\r\n\r\n" + G.FOLLOWER, "near": True, "adj": {}}
         yield {"stream": "GET / HTTP/1.1\r\n" + "X" * n + "\r\n\r\n" + G.FOLLOWER, "near": True, "adj": {}}
         yield {"stream": "GET / HTTP/1.1\r\nTransfer-Encoding: " + "chunked, " * (n // 9) + "chunked\r\n\r\n0\r\n\r\n", "near": True, "adj": {}}
+    # inputs of the shape (unit)*n + one forbidden byte at every gate that is decided by a regular expression: a pattern that
+    # backtracks exponentially on them makes the hang oracle fire (n = 25 already means 2^25 steps)
+    for unit in ("a", "a ", "ab", "a\t", "a,", "a=", "a;", "\\a", "\xe9"):
+        for n in (25, 50, 100):
+            run = unit * n
+            for bad in ("\x01", "\x7f", "\x00"):
+                yield {"stream": "GET / HTTP/1.1\r\nX-Thing: " + run.strip() + bad + "\r\n\r\n" + G.FOLLOWER, "near": True, "adj": {}}
+                yield {"stream": "POST / HTTP/1.1\r\nTransfer-Encoding: chunked\r\n\r\n0\r\nX-T: " + run.strip() + bad + "\r\n\r\n" + G.FOLLOWER, "near": True, "adj": {}}
+                yield {"stream": "POST / HTTP/1.1\r\nTransfer-Encoding: chunked\r\n\r\n3;a=\"" + run + bad + "\r\nabc\r\n0\r\n\r\n", "near": True, "adj": {}}
+            if " " not in unit and "\t" not in unit:
+                yield {"stream": "POST / HTTP/1.1\r\nTransfer-Encoding: chunked\r\n\r\n3;" + run + "\x01\r\nabc\r\n0\r\n\r\n", "near": True, "adj": {}}
+                yield {"stream": "GET /" + run + "\x01 HTTP/1.1\r\n\r\n" + G.FOLLOWER, "near": True, "adj": {}}
+                yield {"stream": "GET / HTTP/1.1\r\n" + run.replace(",", "-").replace("=", "-").replace(";", "-").replace("\\", "-") + "\x01: v\r\n\r\n" + G.FOLLOWER, "near": True, "adj": {}}
     for t in ("http://[::1/x", "http://[/", "http://]/", "//[::1", "http://h:99999999/", "http://[v1.x]/", "http://h:x/", "http://\xff/",
               "/%", "/%zz%", "*", "h:443", "http://[::1]:80:90/", "http://a@b@c/", "?", "#", "/\xff\xfe", "http://[::ffff:1.2.3.4]/p"):
         for ver in (" HTTP/1.1", " HTTP/1.0", ""):
@@ -404,8 +417,15 @@ def run_job(job, col):
     if job["kind"] == "fuzz":
         from ..fuzz import run_fuzz_job
         return run_fuzz_job(job, col, PID)
+    hangs = [0]
+
     def one(case):
+        if hangs[0] >= 3:
+            col.labels["skipped-after-3-hangs-in-this-job"] += 1   # every hang costs HANG_S seconds; three are evidence enough
+            return
         fs, nt, labels = run_case_full(case)
+        if "hang" in labels:
+            hangs[0] += 1
         col.record(case, fs, nontrivial=nt, labels=labels)
 
     k = job["kind"]
